@@ -20,6 +20,7 @@ var (
 	flagSeed0 = flag.Int64("seed0", 1, "internal: seed base")
 	flagK     = flag.Int("k", 32, "internal: calls per function")
 	flagOnly  = flag.String("only", "", "internal: restrict to one function")
+	flagCallT = flag.Int("calltimeout", 10, "internal: seconds a generated call may take")
 )
 
 // BatchInfo is what the preparation step knows about the batch.
@@ -76,8 +77,25 @@ func (c *c15) Execute(env *kernel.Env, raw json.RawMessage, ch *kernel.Choices) 
 	if err := json.Unmarshal(raw, &p); err != nil {
 		kernel.Harnessf("params: %v", err)
 	}
+	out := c.runChild(p, 10)
+	if out.Violation != nil && out.Violation.Clause == "does_not_return" {
+		// a wall-clock verdict: confirm it on that function alone with three
+		// times the budget before believing it (a loaded machine can starve a
+		// child for seconds; a loop that never ends will not finish either way)
+		q := p
+		q.Only = strings.TrimPrefix(out.Violation.Signature[strings.LastIndex(out.Violation.Signature, "/")+1:], "")
+		again := c.runChild(q, 30)
+		if again.Violation == nil || again.Violation.Clause != "does_not_return" {
+			out.Violation = again.Violation
+			out.Probe("watchdog_verdict_not_confirmed")
+		}
+	}
+	return out
+}
+
+func (c *c15) runChild(p params, callTimeout int) *kernel.Outcome {
 	out := &kernel.Outcome{}
-	args := []string{"-child", "-prog", p.Prog, "-seed0", fmt.Sprint(p.Seed0), "-k", fmt.Sprint(p.K)}
+	args := []string{"-child", "-prog", p.Prog, "-seed0", fmt.Sprint(p.Seed0), "-k", fmt.Sprint(p.K), "-calltimeout", fmt.Sprint(callTimeout)}
 	if p.Only != "" {
 		args = append(args, "-only", p.Only)
 	}
@@ -116,7 +134,7 @@ func (c *c15) Execute(env *kernel.Env, raw json.RawMessage, ch *kernel.Choices) 
 				firstViol = &v
 			}
 		case strings.HasPrefix(line, "TIMEOUT"):
-			firstViol = &Viol{Func: lastCall, Seed: lastSeed, Clause: "does_not_return", Detail: "the call did not return within 10 s of wall-clock time (a generated function normally runs for microseconds)"}
+			firstViol = &Viol{Func: lastCall, Seed: lastSeed, Clause: "does_not_return", Detail: fmt.Sprintf("the call did not return within %d s of wall-clock time, confirmed by a second run of that function alone with 30 s (a generated function normally runs for microseconds)", callTimeout)}
 		case strings.HasPrefix(line, "DONE "):
 			finished = true
 			var st map[string]struct{ Calls, Distinct int }
@@ -191,6 +209,7 @@ func (c *c15) Meta(env *kernel.Env) kernel.Meta {
 func Main(progs []Program, infoJSON string) {
 	flag.Parse()
 	if *flagChild {
+		callTimeoutSeconds = *flagCallT
 		for i := range progs {
 			if progs[i].Name == *flagProg {
 				Child(&progs[i], *flagSeed0, *flagK, *flagOnly)
